@@ -167,6 +167,34 @@ func runC07(c *Ctx) {
 					ok = isEx && ex.Index == 0 && isNewACL(ex.Tuple)
 				} else {
 					ok = last.V != nil && isNamed(last.V.Type(), "subscribe", "aclStub")
+					// ... or the RPCACL made by a permit-all stand-in of the module (a null object used when no
+					// ACL is configured): a type other than the configured one whose NewRPCACL returns only
+					// (&aclStub{}, nil)
+					if ex, isEx := last.V.(*ssa.Extract); !ok && isEx && ex.Index == 0 && isNewACL(ex.Tuple) {
+						recv := frameResolve(RV{last.F, ex.Tuple.(*ssa.Call).Call.Value})
+						if mi, isMI := recv.V.(*ssa.MakeInterface); isMI {
+							ok = permitAllACL(P, mi.X.Type())
+						} else if call, isCall := recv.V.(*ssa.Call); isCall {
+							// the accessor's result on this path (no ACL configured): every MakeInterface it can return
+							// on the nil edge is judged; the configured object itself is excluded by the scenario
+							if g := staticCallee(&call.Call); g != nil && g.Blocks != nil {
+								all, any := true, false
+								instrs(g, func(in ssa.Instruction) {
+									if r, isR := in.(*ssa.Return); isR && len(r.Results) == 1 {
+										if mi, isMI := r.Results[0].(*ssa.MakeInterface); isMI {
+											any = true
+											if !permitAllACL(P, mi.X.Type()) {
+												all = false
+											}
+										} else if !loadOfField(r.Results[0], fACL) {
+											all = false
+										}
+									}
+								})
+								ok = all && any
+							}
+						}
+					}
 				}
 				c.Check(ok, "C07.unauth", fn, fmt.Sprintf("ACL object in use, configured=%v", has), pos, "streamClient.acl = "+exprOrNil(last.V))
 			}
@@ -600,4 +628,47 @@ func prefixAlways(c *Ctx, rule string) {
 		})
 		c.Check(ok, rule, fnName(f), "builds Prefix{Target: …}", P.Pos(f.Pos()), "notification literal carries a non-nil prefix with the target stored")
 	}
+}
+
+// permitAllACL: T is a type of package subscribe whose NewRPCACL returns (&aclStub{}, nil) on every path.
+func permitAllACL(P *Prog, T types.Type) bool {
+	var m *ssa.Function
+	for _, tt := range []types.Type{T, types.NewPointer(T)} {
+		if sel := P.SSA.MethodSets.MethodSet(tt).Lookup(nil, "NewRPCACL"); sel != nil {
+			m = P.SSA.MethodValue(sel)
+		}
+	}
+	if m == nil || m.Blocks == nil || !strings.HasSuffix(pkgPathOf(m), "/subscribe") {
+		return false
+	}
+	// thunks/wrappers: follow to the declared method
+	for i := 0; i < 3 && m.Synthetic != ""; i++ {
+		var next *ssa.Function
+		for _, ci := range callsIn(m) {
+			if g := staticCallee(ci.Common()); g != nil && g.Name() == "NewRPCACL" {
+				next = g
+			}
+		}
+		if next == nil {
+			break
+		}
+		m = next
+	}
+	ok, n := true, 0
+	instrs(m, func(in ssa.Instruction) {
+		r, isR := in.(*ssa.Return)
+		if !isR {
+			return
+		}
+		n++
+		if len(r.Results) != 2 || !isNilConst(r.Results[1]) {
+			ok = false
+			return
+		}
+		mi, isMI := r.Results[0].(*ssa.MakeInterface)
+		if !isMI || !isNamed(mi.X.Type(), "subscribe", "aclStub") {
+			ok = false
+		}
+	})
+	return ok && n > 0
 }
